@@ -136,6 +136,11 @@ func genProgram(r *core.Rand) *elfref.Desc {
 		// a second image block a few bytes behind the first
 		segs = append(segs, imggen.DataSeg{Addr: dataAddr + uint64(len(data)+bss+r.Range(1, 7)), Data: r.Bytes(r.Range(1, 24))})
 	}
+	if r.Chance(1, 6) {
+		// a loadable segment without a single byte, at an address that is no
+		// multiple of 16, in a window nothing else touches
+		segs = append(segs, imggen.DataSeg{Addr: 0x30000 + uint64(16*r.Intn(4)+r.Range(1, 15)), Empty: true})
+	}
 	return imggen.ExecSegs(prog, entry, segs)
 }
 
@@ -310,7 +315,7 @@ func (p *policy) disCommand() string {
 		return spaced(r, pick(r, "entrypoint", "entry"))
 	case 4:
 		pats := []string{"add", "x1", "Block", "ld", "^$", "0x", "x[0-9]+, x0", ".", "zzzz", "Block 1", "s[bhwd] ", "\\|", "[", "j", "beq|bne",
-			".*", "x*", "q?", "(add|sub|ld)", "x1,", "x2,", "x3,", "1:", "0:", "x1,|x2,", "2:", ",", ":", "a0", "b3", "ef", "[0-9a-f][0-9a-f] [0-9a-f][0-9a-f]", "ff", "block", "e[0-9]", "1b", "x1,\tx", "add\t", "x2,\u00a0x", "Block\t1", "\tx1", "ld\vx", "[0-9A-F][0-9A-F] [0-9A-F][0-9A-F]", "Block [2-9]", "x3[01]?", "lw|ld|sd|sw"}
+			".*", "x*", "q?", "(add|sub|ld)", "x1,", "x2,", "x3,", "1:", "0:", "x1,|x2,", "2:", ",", ":", "a0", "b3", "ef", "[0-9a-f][0-9a-f] [0-9a-f][0-9a-f]", "ff", "block", "e[0-9]", "1b", "^addi", "^ld", "^[a-z]", "^ +add", "^    ", "^Block", "^ *l[dw]", "^sd", "^x", "x1,\tx", "add\t", "x2,\u00a0x", "Block\t1", "\tx1", "ld\vx", "[0-9A-F][0-9A-F] [0-9A-F][0-9A-F]", "Block [2-9]", "x3[01]?", "lw|ld|sd|sw"}
 		if p.lastFind != "" && r.Chance(1, 4) {
 			// the previous search once more, continued by further words
 			more := pick(r, "x1,", "x2,", "x5,", "x0", "1", "0x", "[0-9]+", ".*", "x[0-9]+,")
